@@ -180,6 +180,62 @@ def pat_binds(p):
 # re-sugaring
 # ---------------------------------------------------------------------------
 
+def _undo_self_destructuring(root):
+    """`let Self { a, b, .. } = self;` (split borrows of the receiver) followed by uses of the locals `a`, `b` is rewritten to
+    uses of `self.a`, `self.b`, so that analyses keyed on receiver fields see the same accesses in both spellings."""
+    mapping = {}
+    selfnode = [None]
+
+    def find(n):
+        if isinstance(n, list):
+            for x in n:
+                find(x)
+        elif isinstance(n, dict):
+            if n.get("k") == "let" and isinstance(n.get("pat"), dict) and n["pat"].get("k") == "pstruct" and isinstance(n.get("init"), dict) \
+                    and "els" not in n:
+                init = n["init"]
+                while init.get("k") in ("block",) and not init.get("stmts") and init.get("e") is not None:
+                    init = init["e"]
+                while init.get("k") in ("ref", "un") and isinstance(init.get("e"), dict):
+                    init = init["e"]
+                if init.get("k") == "path" and init.get("res") == "local" and init.get("name", "").split("#")[0] == "self" and \
+                        all(f["pat"].get("k") == "bind" and "sub" not in f["pat"] for f in n["pat"].get("fields", [])):
+                    for f in n["pat"]["fields"]:
+                        mapping[f["pat"]["name"]] = f["name"]
+                    selfnode[0] = init
+                    n["_self_destructure"] = True
+            for v in n.values():
+                if isinstance(v, (dict, list)):
+                    find(v)
+    find(root)
+    if not mapping:
+        return root
+
+    def rewrite(n):
+        if isinstance(n, list):
+            return [rewrite(x) for x in n]
+        if not isinstance(n, dict):
+            return n
+        if n.get("k") == "path" and n.get("res") == "local" and n.get("name") in mapping:
+            ty = (n.get("ty") or "")
+            for pre in ("&mut ", "&"):
+                if ty.startswith(pre):
+                    ty = ty[len(pre):]
+                    break
+            out = {"k": "field", "e": dict(selfnode[0]), "f": mapping[n["name"]], "ty": ty, "sp": n.get("sp"), "se": n.get("se")}
+            if n.get("adj"):
+                out["adj"] = [a for a in n["adj"] if "Deref" not in a]
+            return out
+        if n.get("k") == "block" and n.get("stmts"):
+            n["stmts"] = [st for st in n["stmts"] if not st.get("_self_destructure")]
+        for key in list(n.keys()):
+            v = n[key]
+            if isinstance(v, (dict, list)):
+                n[key] = rewrite(v)
+        return n
+    return rewrite(root)
+
+
 def _resugar(n):
     """Rewrite desugared for / while / ? into structured nodes, recursively (in place)."""
     if isinstance(n, list):
@@ -277,7 +333,7 @@ class Facts:
             lst = []
             for b in d["bodies"]:
                 if b.get("hir"):
-                    b["hir"] = _resugar(b["hir"])
+                    b["hir"] = _undo_self_destructuring(_resugar(b["hir"]))
                 body = Body(b, name)
                 lst.append(body)
                 # lib paths win over bin paths of the same name
